@@ -1,7 +1,7 @@
 """C08 - event loop runs every job, timer and fd callback exactly as registered."""
 from engine.qb import (AnalysisBroken, abstract_run, estr, unwrap, cval, walk, last_field, fields_of, callee_of,
                        mentions_var, atoms_of, root_var)
-from rules.common import field_is, has_call, value_sources, derives
+from rules.common import field_is, has_call, value_sources, derives, macro_named
 
 UNITS = ['lib/loop.c', 'lib/loop_job.c', 'lib/loop_timerlist.c', 'lib/loop_poll.c', 'lib/loop_poll_epoll.c']
 ALT_CONFIGS = [{'name': 'poll2-driver', 'config_undef': ['HAVE_EPOLL_CREATE1', 'HAVE_EPOLL_CREATE'],
@@ -28,7 +28,7 @@ RULES = {
     'R11': 'an entry is findable by descriptor number only while it stands for a registration: a refused add leaves the slot without a number and check (as an emptied slot), and a successful add retires an entry that is being dispatched right now under the same number (the descriptor was closed and its number reused inside its own callback)',
     'R12': 'every signal number qb_loop_signal_add accepts can get the library\'s handler: the installation loop covers all numbers below NSIG',
 }
-FLOORS = {'R1': 6, 'R2': 5, 'R3': 12, 'R4': 9, 'R5': 3, 'R6': 5, 'R7': 1, 'R8': 2, 'R9': 1, 'R10': 1, 'R11': 2, 'R12': 1}
+FLOORS = {'R1': 6, 'R2': 6, 'R3': 12, 'R4': 9, 'R5': 3, 'R6': 7, 'R7': 1, 'R8': 2, 'R9': 1, 'R10': 1, 'R11': 2, 'R12': 1}
 
 
 def run(ctx):
@@ -113,6 +113,18 @@ def r2(ctx):
     dels = list(jd.calls('qb_list_del')) + list(jd.calls('qb_loop_level_item_del'))
     ctx.check('R2', 'job_del-unlinks-before-free', bool(frees) and all(any(jd.ev_dominates(d, fr) for d in dels) for fr in frees),
               frees[0] if frees else jd, 'qb_loop_job_del unlinks a job before freeing it', 'qb_loop_job_del frees a job that is still linked')
+    # the job lists of a level hold items of every source (jobs, timers, descriptors, signal deliveries): an item taken from one
+    # is a job only if its type says so
+    JOB = prog.econst('QB_LOOP_JOB')
+
+    def is_job(a, fb):
+        return a.op == '==' and a.rc == JOB and field_is(a.l, 'type', 'qb_loop_item')
+    jl = [ev for ev in jd.calls('qb_loop_level_item_del')]
+    if not jl:
+        raise AnalysisBroken('qb_loop_job_del: no removal from the job list')
+    ctx.check('R2', 'job_del-type-checked-on-job-list', all(ctx.inl(jd, 2).uncut_path(ev, is_job) is None for ev in ctx.inl(jd, 2).calls('qb_loop_level_item_del')), jl[0],
+              'an item found on a job list is removed as a job only if its type is QB_LOOP_JOB',
+              'qb_loop_job_del treats whatever it finds on the job list as a job: a timer, descriptor or signal item whose bytes happen to match is unlinked and its callback never runs')
 
 
 def _slot_accesses(f, rec, var):
@@ -336,6 +348,17 @@ def r6(ctx):
     calls = {ev.callee for ev in h.events('CALL')}
     ctx.check('R6', 'handler-async-safe', calls <= AS_SAFE, h, 'the signal handler only writes to the pipe',
               'the signal handler calls %s' % sorted(calls - {'write', '__errno_location'}))
+    # resetting a signal's disposition is followed by re-deriving the handlers from the registrations that remain
+    # (another registration may share the signal number)
+    for fn in ('qb_loop_signal_del', 'qb_loop_signal_mod'):
+        g = prog.fn(fn)
+        resets = [ev for ev in g.calls('signal') if len(ev.args) == 2 and (macro_named(ev.args[1], 'SIG_DFL') or cval(unwrap(ev.args[1])) == 0)]
+        for ev in resets:
+            ok, _p = g.must_pass(('after', ev), lambda x: x.kind == 'CALL' and x.callee == '_adjust_sigactions_')
+            ctx.check('R6', '%s:handlers-rederived-after-reset' % fn, ok, ev,
+                      'after signal(n, SIG_DFL) the handlers are re-installed for the registrations that remain',
+                      '%s resets the disposition of the signal and does not re-derive the handlers: a second registration for the same signal number loses the '
+                      'library\'s handler (its callback never runs again, the default action hits the process)' % fn)
     a = prog.fn('_qb_signal_add_to_jobs_')
     adds = list(a.calls('qb_loop_level_item_add'))
     cl = [ev for ev in a.stores(field='cloned_from')]
